@@ -203,6 +203,41 @@ def run(ctx):
             return [('k', 'i', 'row')] + [(k, i, r) for k, rows in gs for i, r in enumerate(rows)]
         jobs.append(('rowgroupmap', None, lambda T=T, key=key, bs=bs: etl.rowgroupmap(T, key, lambda k, rows: ((k, i, tuple(r)) for i, r in enumerate(rows)), header=['k', 'i', 'row'], buffersize=bs),
                      rgoracle, base, nt))
+        # --- key-less simple aggregate: one group made of all the rows
+        for an in ('len', 'list'):
+            value = rng.choice([None, vf])
+            def koracle(T=T, value=value, an=an):
+                vidx = None if value is None else asindices(T[0], value)
+                return [('value',), (AGGS[an]([getv(vidx, tuple(r)) for r in T[1:]]),)]
+            jobs.append(('aggregate:keyless-' + an, None, lambda T=T, value=value, an=an: etl.aggregate(T, None, AGGS[an], value),
+                         koracle, dict(base, key='None', agg=an, value=repr(value)), len(T) > 2))
+        # --- groupcountdistinctvalues: per key group, the number of distinct values of the value field
+        gv = vf if rng.random() < 0.7 else hdr.index(vf)
+        def goracle(T=T, key=key, gv=gv):
+            idx, gs = ref_groups(T, key)
+            vidx = asindices(T[0], gv)
+            out = []
+            for k, rows in gs:
+                seen = []
+                for r in rows:
+                    v = getv(vidx, r)
+                    if not any(v == x for x in seen):
+                        seen.append(v)
+                out.append(tuple(canon(c) for c in keycells(idx, k)) + (len(seen),))
+            return out
+        def canon(c):
+            # which of several equal key values (True / 1 / 1.0 / Decimal('1')) stands for the group is not specified
+            from decimal import Decimal as _D
+            if isinstance(c, _D) and c == c and float(c) == c:
+                c = float(c)
+            if isinstance(c, (bool, float)) and c == c and c not in (float('inf'), float('-inf')) and int(c) == c:
+                c = int(c)
+            return tuple(canon(x) for x in c) if isinstance(c, tuple) else c
+        def gthunk(T=T, key=key, gv=gv):
+            # data rows (the header names positional keys by position)
+            return [tuple(canon(c) for c in r) for r in list(etl.groupcountdistinctvalues(T, key, gv))[1:]]
+        if all(len(r) == len(hdr) for r in T[1:]):
+            jobs.append(('groupcountdistinctvalues', None, gthunk, goracle, dict(base, value=repr(gv)), nt))
     # conservation laws on valuecounts / valuecounter (Counter oracle)
     lines = [j[1] for j in jobs if j[1] is not None]
     model = iter(lean.run_driver(lines))
